@@ -152,8 +152,15 @@ def _prop_of(label):
     """obligations whose label starts with `Cnn:` (after the kind prefix) belong to that
     property only; everything else serves every property the contract is listed for"""
     import re
-    m = re.match(r"(?:post: |on-raise\[[A-Za-z]+\]: )?(C\d\d):", label)
+    m = re.match(r"(?:post: |on-raise\[[A-Za-z]+\]: )?((?:C\d\d/)*C\d\d):", label)
     return m.group(1) if m else None
+
+
+def belongs(label, pid):
+    """an obligation labelled `C01/C18: ...` belongs to C01 and C18 only; unlabelled ones to
+    every property the contract serves"""
+    p = _prop_of(label)
+    return p is None or pid in p.split("/")
 
 
 def _by_property(obls):
